@@ -40,7 +40,7 @@ func Run(cfg hx.Config) (*hx.Meta, error) {
 	var shapes []*ga.Type
 	pool := 16
 	if cfg.Tier == "thorough" {
-		shapes = cat.Shapes(r, 2, 400)
+		shapes = cat.Shapes(r, 2, 1500)
 		pool = 32
 	} else {
 		// quick: every leaf and every depth-1 shape, a seeded slice of the depth-2 shapes, random deeper ones
@@ -631,9 +631,39 @@ func s2source(p *pkg, g int, items []s2item) string {
 	return b.String()
 }
 
-// sameNameDemo records (as a count, not as a violation) that a type built from two imported
-// packages that are both NAMED ext has a text naming both `ext`: outside the property, which
-// speaks of a package importing "the type's package" under its name.
+// sameNameDemo records (as a count, not as a violation) what happens for a type built from two
+// imported packages that are both NAMED ext: the text says ext.E3 and ext.E4 - package names, as
+// fmt's %#v prints them - so no single file can compile it whatever aliases it chooses.  This is
+// outside the property ("a package importing the type's package" under its name); see notes.
 func sameNameDemo(cfg hx.Config, meta *hx.Meta) {
-	meta.Notes = append(meta.Notes, "types mentioning two imported packages with the same name (p/x1/ext, p/x2/ext) are skipped: the text uses package NAMES (as fmt's %#v does), so no text can name both; see notes/C06.md")
+	cat := ga.NewCatalogue()
+	e4 := ga.Named(33, "E4", 2, ga.St(ga.B("string"), ga.Sl(ga.B("int"))))
+	t := ga.St(cat.E3, e4)
+	p := &pkg{dir: filepath.Join(cfg.Work, "same-name-demo"), types: []*ga.Type{t}, idx: []int{0}}
+	note := "types mentioning two imported packages with the same name (p/x1/ext, p/x2/ext) are skipped: the text uses package NAMES (as fmt's %#v does), so no text can name both; see notes/C06.md"
+	defer func() { meta.Notes = append(meta.Notes, note) }()
+	if err := p.write(); err != nil {
+		return
+	}
+	if g := p.generate(cfg.Goderive); g.Exit != 0 {
+		return
+	}
+	if bd := hx.GoBuild(p.dir, filepath.Join(p.dir, "drv"), "drv", "./cmd/drv"); bd.Exit != 0 {
+		return
+	}
+	cf := filepath.Join(p.dir, "cases.txt")
+	if os.WriteFile(cf, []byte("gs 0 (st (st (i 1) (b 1)) (st (s 97) nils))\n"), 0o644) != nil {
+		return
+	}
+	res := hx.Run(p.dir, 60e9, 8000000, nil, filepath.Join(p.dir, "drv"), cf)
+	text, bad := textOf(strings.TrimSpace(res.Stdout))
+	if res.Exit != 0 || bad != "" {
+		return
+	}
+	if strings.Contains(text, "ext.E3{}") && strings.Contains(text, "ext.E4{}") {
+		meta.Count("demo/two-packages-named-ext: the text names both `ext`")
+		note += " [demonstrated in this run: " + hx.Truncate(strings.ReplaceAll(text, "\n", "; "), 200) + "]"
+	} else {
+		meta.Count("demo/two-packages-named-ext: text does NOT name both ext (behaviour changed?)")
+	}
 }
